@@ -100,7 +100,8 @@ def c14(ck, tmp):
             gen.write_text(gfa, text)
         tok = tokenize_gfa(text)
         real = [(l["a"], "+" if l["da"] else "-", l["b"], "+" if l["db"] else "-") for l in tok["links"] if l["a"] in ids and l["b"] in ids]
-        paths = [rand_steps(rng, text, ids, real) for _ in range(10)]
+        # one graph per run gets a path file of more than a thousand lines (beyond any plausible internal batch)
+        paths = [rand_steps(rng, text, ids, real) for _ in range(10 if it != 5 else 560)]
         rev = [[(n, {"+": "-", "-": "+"}[o]) for n, o in reversed(p)] for p in paths]
         allp = paths + rev
         strs = [gen.path_str(p) for p in allp]
@@ -415,8 +416,63 @@ def c15(ck, tmp):
     for it in range(250 if quick else 8000):
         run_history(ck, rng)
     flush_algos(ck)
+    mid_graph(ck, rng, tmp)
     if not quick:
         big_graph(ck)
+
+
+def mid_graph(ck, rng, tmp):
+    """a generated chain of > 1000 bubbles (> 4096 L lines) written S-first, L-first and shuffled, loaded with and without
+    low_memory: components, articulation points and dfs against what the construction fixes (supporting run at a size the
+    definition-level checker does not reach; the small scopes above are decided by the Lean specification)"""
+    from gaftools.gfa import GFA
+    nb = rng.randint(1050, 1200)
+    S, L = [], []
+    k = 0
+
+    def new():
+        nonlocal k
+        k += 1
+        S.append("S\tn%d\t%s" % (k, gen.rseq(rng, 2)))
+        return "n%d" % k
+    scaff = [new()]
+    for b in range(nb):
+        r, h, nxt = new(), new(), new()
+        for x in (r, h):
+            L.append("L\t%s\t+\t%s\t+\t0M" % (scaff[-1], x))
+            L.append("L\t%s\t+\t%s\t+\t0M" % (x, nxt))
+        scaff.append(nxt)
+    lone = new()                     # a second component: one segment without links
+    sh = S + L
+    rng.shuffle(sh)
+    allids = {"n%d" % i for i in range(1, k + 1)}
+    for name, lines in (("S-first", S + L), ("L-first", L + S), ("shuffled", sh)):
+        for lm in (False, True):
+            path = os.path.join(tmp, "mid.gfa")
+            gen.write_text(path, "\n".join(lines) + "\n")
+            meta = {"layout": name, "low_memory": lm, "segments": len(S), "links": len(L)}
+            ck.case(meta, True, sample=meta if name == "shuffled" and lm else None)
+            ck.count("mid-graph:%s" % name)
+            try:
+                with watchdog(120):
+                    g = GFA(path, low_memory=lm)
+                    comps = sorted(sorted(c) for c in g.all_components())
+                    chain = set(allids) - {lone}
+                    _, aps = g.biccs(set(chain))
+                    d = g.dfs(scaff[0])
+            except BaseException as e:  # noqa
+                ck.violation("graph algorithms fail on a large generated graph (%s, low_memory=%s): %s: %s" % (name, lm, type(e).__name__, str(e)[:100]), meta)
+                return
+            if comps != sorted([sorted(allids - {lone}), [lone]]):
+                ck.violation("all_components does not give the two components of a large generated graph (%s, low_memory=%s): %d components, sizes %s" % (
+                    name, lm, len(comps), sorted(map(len, comps))[-3:]), meta)
+                return
+            if set(aps) != set(scaff[1:-1]):
+                ck.violation("articulation points of a large bubble chain are not its inner scaffold nodes (%s, low_memory=%s)" % (name, lm), meta)
+                return
+            if sorted(d) != sorted(allids - {lone}):
+                ck.violation("dfs does not visit the component exactly once (%s, low_memory=%s)" % (name, lm), meta)
+                return
 
 
 def big_graph(ck):
